@@ -36,6 +36,7 @@ type c20Job struct {
 	Shell   string    `json:"shell"`             // job defaults.run.shell
 	Workdir int       `json:"workdir,omitempty"` // defaults.run.working-directory: 0 none, 1 before shell, 2 after shell (alone when no shell)
 	Windows bool      `json:"windows"`
+	RunsOn  int       `json:"runs_on_form,omitempty"` // 0 literal label; 1 list of labels; 2 expression; 3 group; 4 group + labels expression (2-4: no literal label, Windows is ignored)
 	Steps   []c20Step `json:"steps"`
 }
 
@@ -66,7 +67,7 @@ func effectiveShell(f *c20File, j *c20Job, s *c20Step) string {
 		return j.Shell
 	case f.Shell != "":
 		return f.Shell
-	case j.Windows:
+	case j.Windows && j.RunsOn <= 1:
 		return "pwsh"
 	}
 	return "bash"
@@ -137,10 +138,28 @@ func (c *c20Case) render() (files map[string]string, expects []c20Expect) {
 		for ji := range f.Jobs {
 			j := &f.Jobs[ji]
 			y.ln("  j%d:", ji)
+			label := "ubuntu-latest"
 			if j.Windows {
-				y.ln("    runs-on: windows-latest")
-			} else {
-				y.ln("    runs-on: ubuntu-latest")
+				label = "windows-latest"
+			}
+			switch j.RunsOn {
+			case 1:
+				if j.Windows {
+					y.ln("    runs-on: [self-hosted, Windows-2022]")
+				} else {
+					y.ln("    runs-on: [self-hosted, linux]")
+				}
+			case 2:
+				y.ln("    runs-on: ${{ github.event.inputs.runner }}")
+			case 3:
+				y.ln("    runs-on:")
+				y.ln("      group: my-group")
+			case 4:
+				y.ln("    runs-on:")
+				y.ln("      group: my-group")
+				y.ln("      labels: ${{ github.event.inputs.runner }}")
+			default:
+				y.ln("    runs-on: %s", label)
 			}
 			if j.Shell != "" || j.Workdir != 0 {
 				y.ln("    defaults:")
@@ -533,7 +552,7 @@ func TestC20(t *testing.T) {
 		t.Fatalf("fakecmd not built: %v", err)
 	}
 	hx.Main(t, "C20", func(r *hx.Run) {
-		r.Rule = fmt.Sprintf("worlds with 1-6 files x 1-4 jobs x 0-6 run steps; the effective shell is decided at step / job default / workflow default / runner label level, where a defaults.run section may also exist without a shell (bash, sh, 'bash -e {0}', 'sh -e {0}', pwsh, python, 'python {0}', cmd, windows runner); scripts carry a unique marker and 0-4 ${{ }} placeholders (also unterminated). A stand-in tool (harness/fakecmd, passed as -shellcheck / -pyflakes) logs pid, marker and stdin, sleeps for a generated latency and follows a generated plan (ok / k issues / exit!=0 silent / SIGKILL / SIGKILL after output / empty output / garbage). Seeded delays are injected at the verif schedule points of concurrentProcess. The test process is pinned with taskset (NumCPU=%d here). Oracle: reference shell-resolution model => exactly one invocation per bash/sh resp. python script with the length-preserving sanitised script (plus prologue) on stdin; one diagnostic per printed issue at the run: key; a planned failure <=> fatal error; running tools <= NumCPU at every instant (schedule trace and tool log); all tools ended, collected and called back before LintFiles returns. Non-trivial = >= 2 overlapping tool runs, or a planned failure, or a script with a placeholder; distinct = case hash.", runtime.NumCPU())
+		r.Rule = fmt.Sprintf("worlds with 1-6 files x 1-4 jobs x 0-6 run steps; the effective shell is decided at step / job default / workflow default / runner label level, where a defaults.run section may also exist without a shell and runs-on may be a literal label, a label list, an expression or a runner group without literal labels (bash, sh, 'bash -e {0}', 'sh -e {0}', pwsh, python, 'python {0}', cmd, windows runner); scripts carry a unique marker and 0-4 ${{ }} placeholders (also unterminated). A stand-in tool (harness/fakecmd, passed as -shellcheck / -pyflakes) logs pid, marker and stdin, sleeps for a generated latency and follows a generated plan (ok / k issues / exit!=0 silent / SIGKILL / SIGKILL after output / empty output / garbage). Seeded delays are injected at the verif schedule points of concurrentProcess. The test process is pinned with taskset (NumCPU=%d here). Oracle: reference shell-resolution model => exactly one invocation per bash/sh resp. python script with the length-preserving sanitised script (plus prologue) on stdin; one diagnostic per printed issue at the run: key; a planned failure <=> fatal error; running tools <= NumCPU at every instant (schedule trace and tool log); all tools ended, collected and called back before LintFiles returns. Non-trivial = >= 2 overlapping tool runs, or a planned failure, or a script with a placeholder; distinct = case hash.", runtime.NumCPU())
 		r.Assumptions = []string{"time is only used as order between events stamped on this host; no assertion depends on a duration", "not asserted: a tool that cannot be found at start-up (the default configuration deliberately disables the rule then)", "the 'finished before return' clause is asserted for runs without a fatal error"}
 		r.Extra["num_cpu"] = runtime.NumCPU()
 		shells := []string{"", "", "", "bash", "sh", "bash -e {0}", "sh -e {0}", "pwsh", "python", "python {0}", "cmd"}
@@ -552,7 +571,7 @@ func TestC20(t *testing.T) {
 			for fi := 0; fi < nf; fi++ {
 				f := c20File{Shell: rapid.SampledFrom(shells).Draw(rt, "wshell"), Workdir: rapid.SampledFrom([]int{0, 0, 1, 2}).Draw(rt, "wworkdir")}
 				for ji := 0; ji < rapid.IntRange(1, 4).Draw(rt, "njobs"); ji++ {
-					j := c20Job{Shell: rapid.SampledFrom(shells).Draw(rt, "jshell"), Workdir: rapid.SampledFrom([]int{0, 0, 1, 2}).Draw(rt, "jworkdir"), Windows: rapid.IntRange(0, 4).Draw(rt, "win") == 0}
+					j := c20Job{Shell: rapid.SampledFrom(shells).Draw(rt, "jshell"), Workdir: rapid.SampledFrom([]int{0, 0, 1, 2}).Draw(rt, "jworkdir"), Windows: rapid.IntRange(0, 4).Draw(rt, "win") == 0, RunsOn: rapid.SampledFrom([]int{0, 0, 0, 1, 2, 3, 4}).Draw(rt, "runsonform")}
 					for si := 0; si < rapid.IntRange(0, 6).Draw(rt, "nsteps"); si++ {
 						s := c20Step{ID: fmt.Sprintf("s%d", id), Shell: rapid.SampledFrom(shells).Draw(rt, "sshell"), Plan: "ok"}
 						id++
